@@ -328,6 +328,15 @@ class Executor(ExprMixin, CallMixin, LoopMixin, CompMixin, BuiltinMixin):
             self.set_attr(obj, tgt.attr, v, st, tgt)
         elif isinstance(tgt, ast.Subscript):
             obj = self.eval(tgt.value, st)
+            if obj.ty.name == "SDict" and isinstance(tgt.value, ast.Name):
+                # a local plain dict with constant keys and heterogeneous values (e.g. the JSON form of an event)
+                key = self.eval(tgt.slice, st)
+                if not (key.ty == STR and z3.is_string_value(key.t)):
+                    raise Unsupported("static dict with symbolic key")
+                d = dict(obj.t)
+                d[key.t.as_string()] = v
+                st.env[tgt.value.id] = Val(Ty("SDict"), d)
+                return
             self.set_item(obj, tgt.slice, v, st, tgt)
         else:
             raise Unsupported(f"assign target {type(tgt).__name__}")
@@ -346,6 +355,8 @@ class Executor(ExprMixin, CallMixin, LoopMixin, CompMixin, BuiltinMixin):
             return Val(ty, [self.fresh_input(f"{name}_{i}", a, st) for i, a in enumerate(ty.args)])
         if ty == NONE:
             return NONE_VAL
+        if ty.name == "SDict":
+            raise EngineError("SDict is not an input type")
         t = fresh(name, sort_of(ty))
         v = Val(ty, t)
         if assume_valid:
@@ -424,6 +435,21 @@ class Executor(ExprMixin, CallMixin, LoopMixin, CompMixin, BuiltinMixin):
             if p not in c["params"]:
                 raise EngineError(f"contract of {qualname} lacks a type for parameter {p}")
             env[p] = self.fresh_input(p, parse_type(c["params"][p]), st)
+            if p in c.get("param_attrs", {}) and env[p].ty == DT:
+                # a datetime in any zone / possibly naive: symbolic UTC offset (whole microseconds) and awareness
+                off = fresh(p + "_off", I)
+                aware = fresh(p + "_aware", B)
+                st.assume(z3.And(off >= -14 * 3600 * 10 ** 6, off <= 14 * 3600 * 10 ** 6, z3.Implies(z3.Not(aware), off == 0)))
+                env[p] = Val(DT, env[p].t, off=off, aware=aware)
+        if fi.node.name == "__init__" and fi.cls is not None and CLASSDEFS.get(fi.cls.qualname, {}).get("record"):
+            # the object under construction starts with no keys: presence flags are consulted, not assumed
+            selfv = env[fi.params[0]]
+            st.ghost["__constructing__"] = (selfv.t,)
+            for f in CLASSDEFS[fi.cls.qualname]["fields"]:
+                st.write(f"{fi.cls.qualname}.{f}!has", B, selfv.t, z3.BoolVal(False))
+        if fi.kind == "setter" and fi.cls is not None and CLASSDEFS.get(fi.cls.qualname, {}).get("record"):
+            # setters run during construction as well: presence of keys is not assumed for `self`
+            st.ghost["__constructing__"] = (env[fi.params[0]].t,)
         st.env = dict(env)
         for gname, gty in c.get("ghost", {}).items():
             st.env[gname] = self.fresh_input(gname, parse_type(gty), st)
